@@ -463,3 +463,73 @@ Lemma eip155_high_s_witness :
   sender_signer keccak256 (table_ecrecover w_table) (EIP155 3) w_tx = Ok w_sender /\
   is_protected_v (t_v w_tx) = true /\ secp_half_n < t_s w_tx.
 Proof. vm_compute. repeat split. Qed.
+
+(* ---------- 7. JSON hex quantities (hexutil.Big / hexutil.Uint64) round trip ---------- *)
+Lemma nibble_hex_digit d : d < 16 -> nibble (hex_digit d) = Some d /\ (d <> 0 -> b2n (hex_digit d) <> 48).
+Proof.
+  intros Hd.
+  assert (C : d = 0 \/ d = 1 \/ d = 2 \/ d = 3 \/ d = 4 \/ d = 5 \/ d = 6 \/ d = 7 \/ d = 8 \/ d = 9 \/
+              d = 10 \/ d = 11 \/ d = 12 \/ d = 13 \/ d = 14 \/ d = 15) by lia.
+  repeat (destruct C as [->|C]; [split; [reflexivity|first [intros Hz; exfalso; apply Hz; reflexivity|intros _; vm_compute; discriminate]]|]).
+  subst. split; [reflexivity|intros _; vm_compute; discriminate].
+Qed.
+
+Lemma nibbles_acc_app a p q :
+  nibbles_acc a (p ++ q) = match nibbles_acc a p with Some b => nibbles_acc b q | None => None end.
+Proof.
+  revert a. induction p as [|c p IH]; intros a; cbn [app nibbles_acc]; [reflexivity|].
+  destruct (nibble c); [apply IH|reflexivity].
+Qed.
+
+Lemma hex_digits_fuel_spec f : forall n acc,
+  n < 2 ^ N.of_nat f ->
+  exists pre, hex_digits_fuel f n acc = pre ++ acc /\
+    (forall a, nibbles_acc a pre = Some (a * 16 ^ lenN pre + n)) /\
+    (n = 0 -> pre = []) /\
+    (n <> 0 -> (exists h t, pre = h :: t /\ b2n h <> 48) /\ 16 ^ (lenN pre - 1) <= n).
+Proof.
+  induction f as [|f IH]; intros n acc Hn.
+  - cbn in Hn. assert (n = 0) by lia. subst. exists []. cbn. repeat split; try lia; try reflexivity.
+    intros a. f_equal. lia.
+  - cbn [hex_digits_fuel]. destruct (N.eqb_spec n 0) as [->|Hnz].
+    + exists []. cbn. repeat split; try lia; try reflexivity. intros a. f_equal. lia.
+    + assert (Hq : n / 16 < 2 ^ N.of_nat f).
+      { rewrite Nat2N.inj_succ, N.pow_succ_r' in Hn.
+        assert (1 <= 2 ^ N.of_nat f) by (pose proof (N.pow_nonzero 2 (N.of_nat f)); lia). lia. }
+      destruct (IH (n / 16) (hex_digit (n mod 16) :: acc) Hq) as (pre & E & Hv & Hz & Hnzp).
+      assert (Hd : n mod 16 < 16) by lia.
+      destruct (nibble_hex_digit _ Hd) as [Nib Nz].
+      exists (pre ++ [hex_digit (n mod 16)]). split; [|split; [|split]].
+      * rewrite E. now rewrite <- app_assoc.
+      * intros a. rewrite nibbles_acc_app, Hv. cbn [nibbles_acc]. rewrite Nib. f_equal.
+        rewrite lenN_app. change (lenN [hex_digit (n mod 16)]) with 1.
+        rewrite N.pow_add_r. change (16 ^ 1) with 16. lia.
+      * intros; lia.
+      * intros _. rewrite lenN_app. change (lenN [hex_digit (n mod 16)]) with 1.
+        destruct (N.eqb_spec (n / 16) 0) as [Q0|Q0].
+        -- rewrite (Hz Q0). cbn [app]. split.
+           ++ exists (hex_digit (n mod 16)), []. split; [reflexivity|]. apply Nz. lia.
+           ++ change (lenN (@nil byte) + 1 - 1) with 0. cbn. lia.
+        -- destruct (Hnzp Q0) as ((h & t & -> & Hh) & Hb). split.
+           ++ exists h, (t ++ [hex_digit (n mod 16)]). split; [reflexivity|assumption].
+           ++ rewrite lenN_cons in *. replace (1 + lenN t + 1 - 1) with (N.succ (1 + lenN t - 1)) by lia.
+              rewrite N.pow_succ_r'. lia.
+Qed.
+
+Theorem quantity_roundtrip maxlen n :
+  1 <= maxlen -> n < 16 ^ maxlen -> dec_quantity maxlen (enc_quantity n) = Some n.
+Proof.
+  intros Hm Hn. unfold enc_quantity. destruct (N.eqb_spec n 0) as [->|Hnz].
+  - cbn [dec_quantity]. change (b2n x30 =? 48) with true. change (b2n x78 =? 120) with true. cbn [andb orb].
+    change (lenN (@nil byte)) with 0. cbn [N.eqb negb andb]. change (lenN [x30]) with 1.
+    destruct (N.ltb_spec maxlen 1); [lia|]. reflexivity.
+  - assert (Hsz : n < 2 ^ N.of_nat (N.to_nat (N.size n))).
+    { rewrite N2Nat.id. destruct n; [lia|apply N.size_gt]. }
+    destruct (hex_digits_fuel_spec _ n [] Hsz) as (pre & E & Hv & _ & Hnzp).
+    rewrite E, app_nil_r. destruct (Hnzp Hnz) as ((h & t & -> & Hh) & Hb).
+    cbn [dec_quantity]. change (b2n x30 =? 48) with true. change (b2n x78 =? 120) with true. cbn [andb orb].
+    destruct (N.eqb_spec (b2n h) 48) as [|_]; [contradiction|]. cbn [andb].
+    destruct (N.ltb_spec maxlen (lenN (h :: t))) as [L|L].
+    + exfalso. assert (16 ^ maxlen <= 16 ^ (lenN (h :: t) - 1)) by (apply N.pow_le_mono_r; lia). lia.
+    + rewrite Hv. f_equal; lia.
+Qed.
